@@ -199,6 +199,60 @@ fn sweep(ctx: &mut Ctx) {
 enum Src {
     Grammar,
     PushrGenerator,
+    /// every instruction is preceded by literals for its documented operands, so programs stay
+    /// "alive" and build up vectors, graphs, bindings and code over many steps
+    Typed,
+}
+
+fn typed_program(r: &mut Rng, names: &[String], vals: Vals) -> SItem {
+    use crate::frame::frame;
+    let i = |n: &str| SItem::Instr(n.to_string());
+    let n_instr = 5 + r.below(45);
+    let io = gen::ItemOpts::all(vals);
+    let mut items: Vec<SItem> = vec![];
+    if r.bool() {
+        items.push(i("GRAPH.ADD"));
+        for _ in 0..r.below(4) {
+            items.push(SItem::Int(r.below(4) as i32));
+            items.push(i("GRAPH.NODE*ADD"));
+        }
+    }
+    for _ in 0..n_instr {
+        let name = r.pick(names).clone();
+        let mut after: Vec<SItem> = vec![];
+        if let Some(fr) = frame(&name) {
+            for (st, n) in fr.needs.iter() {
+                for _ in 0..*n {
+                    match st {
+                        St::Bool => items.push(SItem::Bool(r.bool())),
+                        St::Int => items.push(SItem::Int(gen::int(r, vals))),
+                        St::Float => items.push(SItem::Float(fb(gen::float(r, vals)))),
+                        St::Name => {
+                            items.push(i("NAME.QUOTE"));
+                            items.push(SItem::Name(gen::name(r)));
+                        }
+                        St::Code => {
+                            items.push(i("CODE.QUOTE"));
+                            items.push(gen::item(r, 2, &io, names));
+                        }
+                        St::Exec => after.push(gen::item(r, 2, &io, names)),
+                        St::BV => items.push(SItem::BV(gen::bvec(r, 5))),
+                        St::IV => items.push(SItem::IV(gen::ivec(r, 5, vals))),
+                        St::FV => items.push(SItem::FV(gen::fvec(r, 5, vals))),
+                        St::Index => {
+                            items.push(SItem::Int(r.below(5) as i32));
+                            items.push(i("INDEX.DEFINE"));
+                        }
+                        St::Graph => items.push(i("GRAPH.ADD")),
+                        _ => {}
+                    }
+                }
+            }
+        }
+        items.push(SItem::Instr(name));
+        items.extend(after);
+    }
+    SItem::List(items)
 }
 
 fn programs(ctx: &mut Ctx, src: Src) {
@@ -208,10 +262,12 @@ fn programs(ctx: &mut Ctx, src: Src) {
     let label = match src {
         Src::Grammar => 2u64,
         Src::PushrGenerator => 3u64,
+        Src::Typed => 4u64,
     };
     let nprog = match src {
         Src::Grammar => ctx.n(if ctx.profile == "debug" { 8000 } else { 40000 }, if ctx.profile == "debug" { 40000 } else { 200000 }),
         Src::PushrGenerator => ctx.n(if ctx.profile == "debug" { 4000 } else { 16000 }, if ctx.profile == "debug" { 20000 } else { 100000 }),
+        Src::Typed => ctx.n(if ctx.profile == "debug" { 6000 } else { 30000 }, if ctx.profile == "debug" { 40000 } else { 200000 }),
     };
     for k in 0..nprog as u64 {
         let case = label * 10_000_000 + k;
@@ -237,6 +293,11 @@ fn programs(ctx: &mut Ctx, src: Src) {
                 let pts = 1 + r.below(if k % 10 == 0 { 200 } else { 40 });
                 let dep = 1 + r.below(6);
                 let prog = gen::program(&mut r, pts, dep, vals, &names);
+                prog_text = gen::render(&prog);
+                st.exec_stack.push(prog.to_item());
+            }
+            Src::Typed => {
+                let prog = typed_program(&mut r, &names, vals);
                 prog_text = gen::render(&prog);
                 st.exec_stack.push(prog.to_item());
             }
@@ -294,7 +355,14 @@ fn programs(ctx: &mut Ctx, src: Src) {
         // drop the (possibly large) state inside a guard as well: Drop must not crash either
         let _ = guarded(move || drop(st));
         if k % 400 == 0 {
-            ctx.rec.sample(if matches!(src, Src::Grammar) { "grammar-program" } else { "pushr-generator-program" }, &format!("{} :: init {}", prog_text, init.summary()));
+            ctx.rec.sample(
+                match src {
+                    Src::Grammar => "grammar-program",
+                    Src::PushrGenerator => "pushr-generator-program",
+                    Src::Typed => "typed-program",
+                },
+                &format!("{} :: init {}", prog_text, init.summary()),
+            );
         }
     }
     // coverage of instructions inside real program runs
@@ -314,12 +382,15 @@ pub fn run(ctx: &mut Ctx) {
         "sweep" => sweep(ctx),
         "grammar" => programs(ctx, Src::Grammar),
         "pushrgen" => programs(ctx, Src::PushrGenerator),
+        "typed" => programs(ctx, Src::Typed),
         _ => {
             sweep(ctx);
             ctx.rec.checkpoint();
             programs(ctx, Src::Grammar);
             ctx.rec.checkpoint();
             programs(ctx, Src::PushrGenerator);
+            ctx.rec.checkpoint();
+            programs(ctx, Src::Typed);
         }
     }
     ctx.rec.checkpoint();
